@@ -4,6 +4,7 @@ import (
 	"fmt"
 	"os"
 	"path/filepath"
+	"reflect"
 	"strconv"
 	"strings"
 	"sync"
@@ -24,7 +25,7 @@ import (
 //
 // usage: zeno-verif c03 <scratch-dir> <trace> <workers> <pool> <async 0|1> <ratelimit 0|1> <seencheck 0|1> <proxy 0|1> <moment>
 //
-//	moment: idle | drained | paused | diskpaused | midfetch | midfetch-discard | midfetch-cut | hook:<point>:<k> | hold:<point>:<k>
+//	moment: idle | drained | paused | paused-midfeed | diskpaused | midfetch | midfetch-discard | midfetch-cut | hook:<point>:<k> | hold:<point>:<k>
 //
 // midfetch-*: the answer the origin holds back until after Stop was called is one the WARC library ends with an error
 // for - a status in --warc-discard-status, or a body cut in mid-transfer.
@@ -64,6 +65,9 @@ func c03(args []string) error {
 			c.HTTPTimeout = -1 // the default: no request timeout (nothing self-heals after a few seconds)
 		}
 		c.WARCDiscardStatus = []int{418}
+		if moment == "paused-midfeed" {
+			c.MaxHops = 1
+		}
 		if proxy {
 			c.Proxy = "socks5://" + px.Addr()
 		}
@@ -98,6 +102,18 @@ func c03(args []string) error {
 		}
 		run.org.Route(0, "/slow/held.bin", held)
 		seeds = append([]Seed{{ID: "seed-held", Value: run.org.URL(0, "/slow/held.bin")}}, seeds...)
+	}
+	if moment == "paused-midfeed" {
+		// a page with many more outlinks than the channel to the next stage holds; the pipeline is paused when the
+		// postprocessor has extracted them, so that the worker is feeding them into a channel nobody drains when the stop comes
+		var links []string
+		for i := 0; i < 6*w+20; i++ {
+			uri := fmt.Sprintf("/hub/leaf%d.html", i)
+			run.org.Route(1, uri, htmlPage(fmt.Sprintf("leaf %d", i), nil, nil))
+			links = append(links, uri)
+		}
+		run.org.Route(1, "/hub/index.html", htmlPage("hub", nil, links))
+		seeds = append([]Seed{{ID: "seed-hub", Value: run.org.URL(1, "/hub/index.html")}}, seeds...)
 	}
 	if err := run.Preload(seeds); err != nil {
 		return err
@@ -139,7 +155,12 @@ func c03(args []string) error {
 		if p == "arch.take" && archTakes.Add(1) == 3 && (moment == "paused") {
 			fire("third arch.take")
 		}
-		if p == "req" {
+		if moment == "paused-midfeed" && p == "post.done" && len(a) > 2 {
+			if v := reflect.ValueOf(a[2]); v.Kind() == reflect.Slice && v.Len() > 2*w {
+				pause.Pause("operator")
+				time.Sleep(300 * time.Millisecond) // the idle workers of the other stages acknowledge; this one goes on feeding
+				fire(fmt.Sprintf("paused at post.done with %d outlinks", v.Len()))
+			}
 		}
 	}
 	if midfetch {
@@ -171,6 +192,10 @@ func c03(args []string) error {
 			run.tr.Emit(map[string]any{"ev": "stop.trigger", "why": why})
 		case <-time.After(60 * time.Second):
 			run.tr.Emit(map[string]any{"ev": "stop.trigger", "why": "moment never reached"})
+		}
+		if moment == "paused-midfeed" {
+			time.Sleep(300 * time.Millisecond) // the feeding worker has filled the channel by now
+			run.tr.Emit(map[string]any{"ev": "paused.by", "who": "operator (while outlinks were being fed)", "paused": pause.IsPaused()})
 		}
 		if moment == "paused" {
 			pause.Pause("operator")
